@@ -34,8 +34,6 @@ import (
 	"verifharness/internal/xsubs"
 )
 
-const sigAlias = "C28.shared-params-handle-alias"
-
 type env struct {
 	o   *h.Opts
 	r   *h.Result
@@ -339,15 +337,8 @@ func (e *env) handleSequence(seed uint64) {
 				e.r.Fail(c, "", "delivered message does not carry the published value")
 			}
 		default:
-			sig := ""
-			if it.shared {
-				sig = sigAlias
-			}
-			detail := fmt.Sprintf("a data change of the item that samples n%d (value %d) is delivered as NodeID=n%s; ops: %s", it.node, val, got, strings.Join(trace, " ; "))
-			e.r.Fail(c, sig, detail)
-			if sig != "" {
-				e.r.Confirm(sig, detail)
-			}
+			detail := fmt.Sprintf("a data change of the item that samples n%d (value %d) is delivered as NodeID=n%s (item created by a call with shared parameters object: %v); ops: %s", it.node, val, got, it.shared, strings.Join(trace, " ; "))
+			e.r.Fail(c, "", detail)
 			e.r.Hit("deliver:WRONG-NODE")
 		}
 	}
@@ -617,7 +608,7 @@ func main() {
 		r.Write(o.Out)
 		return
 	}
-	// the recorded witness of the finding first
+	// recorded histories first (regression witness of the repaired C28.shared-params-handle-alias)
 	for _, l := range o.CorpusLines() {
 		var seed uint64
 		if _, err := fmt.Sscanf(l, "handles seed=%d", &seed); err == nil {
